@@ -5,6 +5,7 @@ CONSTANTS
   MaxWrites = 2
   Keys = {"k1", "k2"}
   CancelBudget = 2
+  ExportCuts = FALSE
 INVARIANTS
   Export
 CHECK_DEADLOCK FALSE
